@@ -35,8 +35,15 @@ import (
 
 const recycleEvery = 200
 
+// repoDir is /repo; VERIF_REPO overrides it for self-tests on a scratch worktree only.
+var repoDir = func() string {
+	if d := os.Getenv("VERIF_REPO"); d != "" {
+		return d
+	}
+	return "/repo"
+}()
+
 const (
-	repoDir   = "/repo"
 	modPath   = "github.com/EdgeCast/vflow"
 	goCmd     = "go1.26.8"
 	simrtPath = modPath + "/verifsim/simrt"
@@ -93,6 +100,13 @@ func init() {
 	props["C11"].Level = "fault_enumeration"
 	props["C10"].Race, props["C10"].RaceShare = true, 50
 	props["C12"].Race, props["C12"].RaceShare = true, 25
+	// the whole-pipeline checks of the input-oriented properties give a small
+	// share of their workers to the race build: unsynchronised state shared
+	// between workers inside a decoder or encoder has no scheduling point the
+	// plain scheduler could interleave at (DESIGN.md 17, C08-a)
+	for _, id := range []string{"C03", "C05", "C06", "C07", "C08", "C13", "C16", "C18"} {
+		props[id].Race, props[id].RaceShare = true, 15
+	}
 	props["C15"].Race, props["C15"].RaceShare = true, 35
 }
 
@@ -105,6 +119,8 @@ type buildOut struct {
 	BuildSec float64
 }
 
+var copyTests bool // selftest transparency: keep the repository's own _test.go files
+
 func copyTree(dst string) error {
 	// tracked and untracked non-ignored files of the working tree
 	cmd := exec.Command("git", "-C", repoDir, "ls-files", "-co", "--exclude-standard")
@@ -116,7 +132,7 @@ func copyTree(dst string) error {
 		if p == "go.mod" || p == "go.sum" || p == "scripts/ipfix.elements" {
 			return true
 		}
-		if !strings.HasSuffix(p, ".go") || strings.HasSuffix(p, "_test.go") {
+		if !strings.HasSuffix(p, ".go") || (strings.HasSuffix(p, "_test.go") && !copyTests) {
 			return false
 		}
 		for _, d := range pkgDirs {
@@ -1021,6 +1037,90 @@ func determinismOne(bo *buildOut, prop string, nseeds int) int {
 	return 0
 }
 
+// cmdSelftestTransparency runs the repository's own test suite against an
+// instrumented copy (simrt in pass-through mode: no simulation is active, so
+// yields are no-ops and the seams forward to the real OS). The instrumented
+// code must pass exactly the tests the pristine code passes.
+func cmdSelftestTransparency() int {
+	scratch := fmt.Sprintf("/var/tmp/vflow-verif-transp.%d", os.Getpid())
+	os.RemoveAll(scratch)
+	defer os.RemoveAll(scratch)
+	src := filepath.Join(scratch, "src")
+	copyTests = true
+	if err := copyTree(src); err != nil {
+		fmt.Fprintln(os.Stderr, err)
+		return 2
+	}
+	copyTests = false
+	rep, err := instr.Instrument(instr.Config{Root: src, Module: modPath, Pkgs: pkgDirs, SimrtPkg: simrtPath, GoCmd: goCmd, Env: goEnv()})
+	if err != nil {
+		fmt.Fprintf(os.Stderr, "instrumenter: %v\n", err)
+		return 2
+	}
+	if err := copyDir(filepath.Join(verifDir, "engine", "simrt"), filepath.Join(src, "verifsim", "simrt"), nil); err != nil {
+		fmt.Fprintln(os.Stderr, err)
+		return 2
+	}
+	args := []string{"test", "-vet=off", "-count=1", "-json"}
+	for _, p := range pkgDirs {
+		args = append(args, "./"+p)
+	}
+	cmd := exec.Command(goCmd, args...)
+	cmd.Dir = src
+	cmd.Env = append(goEnv(), "GODEBUG=asynctimerchan=0")
+	out, _ := cmd.CombinedOutput()
+	pass, fail := map[string]bool{}, map[string]bool{}
+	for _, l := range strings.Split(string(out), "\n") {
+		var ev struct{ Action, Package, Test string }
+		if json.Unmarshal([]byte(l), &ev) != nil || ev.Test == "" {
+			continue
+		}
+		switch ev.Action {
+		case "pass":
+			pass[ev.Package+"::"+ev.Test] = true
+		case "fail":
+			fail[ev.Package+"::"+ev.Test] = true
+		}
+	}
+	// expected: the stable baseline, restricted to the instrumented packages
+	var base struct {
+		StablePass []string `json:"stable_pass"`
+	}
+	if b, err := os.ReadFile("/root/.vp/BASELINE.json"); err == nil {
+		json.Unmarshal(b, &base)
+	}
+	missing := 0
+	checked := 0
+	for _, t := range base.StablePass {
+		in := false
+		for _, p := range pkgDirs {
+			if strings.HasPrefix(t, modPath+"/"+p+"::") {
+				in = true
+			}
+		}
+		if !in {
+			continue
+		}
+		checked++
+		if !pass[t] {
+			fmt.Printf("transparency: baseline test %s does not pass on the instrumented copy\n", t)
+			missing++
+		}
+	}
+	for t := range fail {
+		fmt.Printf("transparency: %s FAILS on the instrumented copy\n", t)
+	}
+	fmt.Printf("transparency: %d instrumented sites, %d loop ticks; %d tests pass on the instrumented copy, %d fail; %d of %d baseline tests of the instrumented packages pass\n",
+		len(rep.Sites), rep.Ticks, len(pass), len(fail), checked-missing, checked)
+	if missing > 0 || len(fail) > 0 || checked == 0 {
+		if len(pass) == 0 {
+			fmt.Println(tailStr(string(out), 2000))
+		}
+		return 1
+	}
+	return 0
+}
+
 func main() {
 	if len(os.Args) < 2 {
 		die(2, "usage: verifctl check <id> --tier quick|thorough | replay <file> | selftest determinism")
@@ -1054,6 +1154,9 @@ func main() {
 		}
 		fmt.Println(bo.Scratch)
 	case "selftest":
+		if len(os.Args) > 2 && os.Args[2] == "transparency" {
+			os.Exit(cmdSelftestTransparency())
+		}
 		prop := "C12"
 		n := 30
 		for i := 2; i < len(os.Args); i++ {
